@@ -285,7 +285,9 @@ def check_relations(case, ctx):
                     W, _ = G.weight_image(shape, *pos[k], data.shape, method, sub)
                     scale = float((W * (abs(a) * np.abs(data) + abs(b) * np.abs(d2))).sum())
                     require(abs(s3[k] - (a * sums[k] + b * s2[k]))
-                            <= 1e-9 * scale + 1e-300, 'linearity',
+                            <= 1e-9 * scale + 1e-12 * (abs(a * sums[k])
+                                                       + abs(b * s2[k]))
+                            + 1e-300, 'linearity',
                             f'{s3[k]} vs {a * sums[k] + b * s2[k]}')
                 ctx.event('linearity_checked')
         # units: Quantity data (+error) -> same numbers with unit
